@@ -26,6 +26,9 @@ func c03(c *q.Ctx) {
 	poolReadmission(c)
 	nothingAfterCommitPoint(c)
 	xmodelDoUndo(c)
+	walkStepOrder(c)
+	blockVerifyFirstError(c)
+	allK9Operations(c, ledgerK9(c))
 	do := c.Fn(st + "(*State).doTxInternal")
 	if do != nil {
 		c.ArgIs(do, "XModel.DoTx", 2, "p2", 1, "key/value effects go to the caller's batch")
@@ -237,6 +240,11 @@ func poolConflictScan(c *q.Ctx) {
 		key := "newmap<map[string]string>[xmodel.MakeRawKey(" + pool + "." + side + "[].Bucket," + pool + "." + side + "[].Key)]"
 		c.CondCount(pu, "(\"\" == "+key+")", 1, "the block's version of the key is looked up under bucket/key ("+side+")")
 		c.CondCount(pu, "("+key+" == xmodel.MakeVersion(*))", 1, "and compared with the version the pending transaction holds ("+side+")")
+		// the only exemption: the overwriting transaction is itself still in the POOL (it was confirmed out of it by this
+		// block and the pending one was built on it) - looked up in the pool map, not among the block's transactions,
+		// which contain every writer of the block's versions by construction
+		c.CondCount(pu, "has(tx.(*Tx).SortUnconfirmedTx(p0.tx)#0,xmodel.GetTxidFromVersion("+key+"))", 1, "a version conflict is excused only when its writer is a pool transaction ("+side+")")
+		c.CondCount(pu, "has(*,xmodel.GetTxidFromVersion("+key+"))", 1, "and by nothing else ("+side+")")
 	}
 	c.MapStoreKeys(pu, "newmap<map[string]string>", []string{"xmodel.MakeRawKey(p1.Transactions[].TxOutputsExt[].Bucket,p1.Transactions[].TxOutputsExt[].Key)"}, "the write map is keyed by bucket/key of every key the block writes")
 }
